@@ -37,6 +37,7 @@ func checkC02(c *Ctx) {
 	ruleC02G1(c, r)
 	ruleC02N1(c, r, "C02.N1")
 	ruleC02G2(c, r)
+	ruleRBCMonotone(c, r, "C02.M1")
 	t := buildThresholdModel(c)
 	if t == nil {
 		return
@@ -151,6 +152,14 @@ func ruleC02G2(c *Ctx, r *rbcModel) {
 		c.Bad(rule, "rbc", "sticky flag store", "-", "no store of true into Receiver.equivocationDetected exists: conflicting digests never halt the instance")
 	}
 	isPinnedDigest := func(v ssa.Value) (*ssa.Lookup, bool) {
+		// (also what a lookup helper hands back: `saved, known := ledger.pinnedDigest(slot)`)
+		if rv := resultOf(v); rv != strip(v) {
+			if e, ok := rv.(*ssa.Extract); ok && e.Index == 0 {
+				if lk, ok := e.Tuple.(*ssa.Lookup); ok && isLoadOfField(lk.X, r.fPinned) {
+					return lk, true
+				}
+			}
+		}
 		e, ok := strip(v).(*ssa.Extract)
 		if ok && e.Index == 0 {
 			if lk, ok := e.Tuple.(*ssa.Lookup); ok && isLoadOfField(lk.X, r.fPinned) {
@@ -316,6 +325,10 @@ func fieldByName(t types.Type, name string) *types.Var {
 func isRecField(v ssa.Value, f *types.Var) bool {
 	if f == nil || v == nil {
 		return false
+	}
+	// (as written: a field of a local reception value is not looked through to what the literal gave it)
+	if _, g, ok := fieldLoad(stripNoParam(v)); ok && g == f {
+		return true
 	}
 	v = strip(v)
 	if isLoadOfField(v, f) {
